@@ -31,7 +31,8 @@ import (
 // ---------------------------------------------------------------- input format
 
 type viCmd struct {
-	C string `json:"c"`           // setbounds seekfirst seeklast seekle seekge next prev nextauto prevauto
+	C string `json:"c"`           // setbounds seekfirst seeklast seekle seekge next prev nextauto prevauto | script
+	N int    `json:"n"`           // script: execute the next n steps of the job's `more` store script
 	K string `json:"k,omitempty"` // span kind of next/prev
 	T int    `json:"t"`           // seek target (extended abstract time)
 	A int    `json:"a"`           // setbounds
@@ -54,6 +55,10 @@ type viJob struct {
 	Conc vsConc   `json:"conc"`
 	MaxT int      `json:"maxt"`
 	Runs []viRun  `json:"runs"`
+	// More: store-script steps (open / write / commit / close only) executed WHILE an
+	// iterator is open, by "script" commands of the runs. When set, writers stay open
+	// after Hist and every trace gets a freshly built database.
+	More []vsStep `json:"more"`
 }
 
 // ---------------------------------------------------------------- output format
@@ -74,6 +79,10 @@ type viEvent struct {
 	Err    string     `json:"err"`
 	Panic  string     `json:"panic,omitempty"`
 	Guard  string     `json:"guard,omitempty"` // command NOT executed: it would kill the process (see viGuard)
+	// script events: the channel's committed samples [timestamp, id] after the script
+	// steps returned (what every later command must see), and the steps executed
+	Stored [][2]int64 `json:"stored,omitempty"`
+	Steps  []string   `json:"steps,omitempty"`
 	Hang   bool       `json:"hang,omitempty"`
 }
 
@@ -100,7 +109,9 @@ type viLayout struct {
 type viLay struct {
 	r      *vsRunner
 	maxT   int
-	last   vsStep
+	last   vsStep // the last executed store-script step: its St.Cm is the committed content
+	more   []vsStep
+	pos    int // next step of `more`
 	decode map[string]map[string][2]int64 // chan -> bytes -> [timestamp, id]
 	pts    []telem.TimeStamp              // sorted extended points
 }
@@ -188,6 +199,7 @@ func (l *viLay) span(kind string, fwd bool, view, bounds telem.TimeRange) telem.
 // ---------------------------------------------------------------- layout construction
 
 func viBuild(job viJob) (*viLay, viLayout) {
+	keep := len(job.More) > 0 // writers stay open: the script continues under open iterators
 	out := viLayout{Layout: job.ID, Status: "ok", Conc: job.Conc, Samples: map[string][][3]int64{}, Pointers: map[string][][2]int64{}}
 	r := &vsRunner{c: job.Conc, writers: map[string]*Writer{}, wchans: map[string][]string{}, maxT: job.MaxT, stats: &vsStats{}}
 	l := &viLay{r: r, maxT: job.MaxT}
@@ -217,11 +229,15 @@ func viBuild(job viJob) (*viLay, viLayout) {
 		}
 	}
 	for k, w := range r.writers {
+		if keep {
+			break
+		}
 		if err := w.Close(); err != nil {
 			return fail("error", "close writer: "+err.Error())
 		}
 		delete(r.writers, k)
 	}
+	l.more = job.More
 	if r.tainted != "" {
 		return fail("tainted", r.tainted)
 	}
@@ -250,8 +266,8 @@ func viBuild(job viJob) (*viLay, viLayout) {
 			ts := int64(r.c.ts(t))
 			switch ch {
 			case "I":
-				id := int64(l.last.St.Cm["I"][strconv.Itoa(t)])
-				m[string(telem.NewSeriesV[telem.TimeStamp](r.c.ts(t)).Data)] = [2]int64{ts, id}
+				// the id of an index sample is looked up at observation time (observe)
+				m[string(telem.NewSeriesV[telem.TimeStamp](r.c.ts(t)).Data)] = [2]int64{ts, int64(t)}
 			case "D":
 				for id := 1; id <= 15; id++ {
 					m[string(r.c.dVal(t, id))] = [2]int64{ts, int64(id)}
@@ -328,6 +344,9 @@ func (l *viLay) observe(ch string, ev *viEvent, view, bounds telem.TimeRange, fr
 		ev.Series = append(ev.Series, [4]int64{int64(s.TimeRange.Start), int64(s.TimeRange.End), s.Len(), int64(s.Alignment)})
 		for smp := range s.Samples() {
 			if v, ok := l.decode[ch][string(smp)]; ok {
+				if ch == "I" {
+					v[1] = int64(l.last.St.Cm["I"][strconv.Itoa(int(v[1]))])
+				}
 				ev.Frame = append(ev.Frame, v)
 			} else {
 				ev.Frame = append(ev.Frame, [2]int64{-1, -1})
@@ -368,6 +387,35 @@ func (l *viLay) drive(run viRun, chans []string, it viIter, inner map[string]*un
 			pre[ch] = inner[ch].View()
 		}
 		switch c.C {
+		case "script":
+			// the store grows under the open iterator: further open/write/commit/close steps
+			for n := 0; n < c.N && l.pos < len(l.more); n++ {
+				st := l.more[l.pos]
+				l.pos++
+				res, err := l.r.exec(st)
+				ev.Steps = append(ev.Steps, st.A)
+				if err != nil || res != st.Res {
+					ev.Err = fmt.Sprintf("script diverged at %s: spec %s, real %s %v", st.A, st.Res, res, err)
+					for _, ch := range chans {
+						e := ev
+						traces[ch].Events = append(traces[ch].Events, e)
+					}
+					return
+				}
+				l.last = st
+			}
+			for _, ch := range chans {
+				e := ev
+				e.Stored = [][2]int64{}
+				for t := 0; t <= l.maxT; t += 2 {
+					if id := l.last.St.Cm[ch][strconv.Itoa(t)]; id != 0 {
+						e.Stored = append(e.Stored, [2]int64{int64(l.r.c.ts(t)), int64(id)})
+					}
+				}
+				traces[ch].Events = append(traces[ch].Events, e)
+			}
+			progress.Add(1)
+			continue
 		case "setbounds":
 			bounds = telem.TimeRange{Start: l.pt(c.A), End: l.pt(c.B)}
 			it.SetBounds(bounds)
@@ -608,22 +656,55 @@ func TestVerifIterRecord(t *testing.T) {
 				}
 				nOK.Add(1)
 				hungAny := false
-				for _, run := range job.Runs {
-					n := l.runOne(job, run, func(tr viTrace) {
-						nTraces.Add(1)
-						nEvents.Add(int64(len(tr.Events)))
-						for _, e := range tr.Events {
-							if e.Hang {
-								hungAny = true
+				emit := func(tr viTrace) {
+					nTraces.Add(1)
+					nEvents.Add(int64(len(tr.Events)))
+					for _, e := range tr.Events {
+						if e.Hang {
+							hungAny = true
+						}
+					}
+					write(map[string]any{"kind": "trace", "v": tr})
+				}
+				shut := func(x *viLay) {
+					if hungAny {
+						return
+					}
+					for _, w := range x.r.writers {
+						_ = w.Close()
+					}
+					_ = x.r.db.Close()
+				}
+				if len(job.More) > 0 {
+					// growing layout: the script steps are consumed by a trace, so every
+					// (run, channel, mode) gets a database of its own
+					shut(l)
+					for _, run := range job.Runs {
+						for _, ch := range run.Chans {
+							for _, mode := range run.Modes {
+								var l2 *viLay
+								p, hung := viGuarded(func(*atomic.Int64) { l2, _ = viBuild(job) })
+								if p != "" || hung || l2 == nil {
+									continue
+								}
+								r1 := run
+								r1.Chans, r1.Modes = []string{ch}, []string{mode}
+								n := l2.runOne(job, r1, emit)
+								nPanics.Add(int64(n))
+								shut(l2)
+								if n > 0 {
+									break // no stream trace after a panic in the unary one
+								}
 							}
 						}
-						write(map[string]any{"kind": "trace", "v": tr})
-					})
+					}
+					continue
+				}
+				for _, run := range job.Runs {
+					n := l.runOne(job, run, emit)
 					nPanics.Add(int64(n))
 				}
-				if !hungAny {
-					_ = l.r.db.Close()
-				}
+				shut(l)
 			}
 		}()
 	}
